@@ -108,6 +108,28 @@ def gen(rng, nrng, tier):
     for cls in C.CLASSES:
         for (n1, c) in ([(25, 2), (49, 2), (24, 3)] if tier == "quick" else [(25, 2), (25, 3), (49, 2), (24, 3), (27, 2), (32, 3)]):
             yield ("grid", {"cls": cls, "x": xz, "n1": n1, "c": c})
+    # the smallest admissible NFFT of each class against its multiples
+    for cplx in (True, False):
+        xb = nrng.standard_normal(N) + (1j * nrng.standard_normal(N) if cplx else 0)
+        for cls in C.CLASSES:
+            cfg = C.default_cfg(cls, N, cplx)
+            if cls == "pcorrelogram":
+                nmin = 2 * cfg["lag"] + 1
+            elif cls == "pminvar":
+                nmin = 2 * cfg["order"]
+            elif cls in ("Periodogram",) or cls.startswith("MT"):
+                nmin = N
+            elif cls in ("pmusic", "pev"):
+                nmin = cfg["order"] + 1
+            elif cls == "pma":
+                nmin = cfg["Q"] + 1
+            elif cls == "parma":
+                nmin = max(cfg["order"], cfg["Q"]) + 1
+            else:
+                nmin = cfg["order"] + 1
+            for c in ((2, 3) if tier == "thorough" else (2,)):
+                yield ("grid", {"cls": cls, "x": xb, "n1": nmin, "c": c})
+                yield ("grid", {"cls": cls, "x": xb, "n1": nmin + 1, "c": c})
     for i in range(20 if tier == "quick" else 300):
         L = int(nrng.integers(1, 20))
         nfft = int(nrng.integers(max(1, L - 3), 40))
